@@ -31,7 +31,8 @@ func (c pedCfg) String() string {
 
 var pedFaults = []string{"none", "absent", "absent-after-deal", "badshare-justified", "badshare-nojust", "badshare-badjust", "badshare-all-nojust", "garbled-share-justified",
 	"shortpoly", "longpoly", "wrongsid-deal", "dup-deal", "conflict-deal", "bigshareindex", "misdirected",
-	"false-complaint", "false-complaint-all", "wrongsid-resp", "dup-resp", "badshare-dupjust", "badshare-wrongsidjust", "badshare-just-bigindex"}
+	"false-complaint", "false-complaint-all", "wrongsid-resp", "dup-resp", "badshare-dupjust", "badshare-wrongsidjust", "badshare-just-bigindex",
+	"false-complaint+badidx", "false-complaint+success"}
 
 // expectation for the faulty dealer: is it in QUAL of the honest nodes?
 func faultyInQual(f string) (inQual bool, defined bool) {
@@ -216,6 +217,23 @@ func pedRun(x *hx.Ctx, c pedCfg) {
 				}
 				if c.fast {
 					rs = append(rs, dkg.Response{DealerIndex: uint32(i), Status: dkg.Success})
+				}
+				r = &dkg.ResponseBundle{ShareIndex: uint32(i), Responses: rs, SessionID: p.nonce}
+				r.Signature = p.sign(i, r)
+			case "false-complaint+badidx", "false-complaint+success":
+				// one bundle that carries a false complaint against an honest dealer AND a response that is itself a
+				// protocol violation (unknown dealer index / an explicit Success outside fast-sync)
+				second := dkg.Response{DealerIndex: uint32(n + 5), Status: dkg.Complaint}
+				if c.fault == "false-complaint+success" {
+					second = dkg.Response{DealerIndex: uint32((p.victim(i) + 1) % n), Status: dkg.Success}
+				}
+				rs := []dkg.Response{{DealerIndex: uint32(p.victim(i)), Status: dkg.Complaint}, second}
+				if c.fast {
+					for d := 0; d < n; d++ {
+						if d != p.victim(i) && d != int(second.DealerIndex) {
+							rs = append(rs, dkg.Response{DealerIndex: uint32(d), Status: dkg.Success})
+						}
+					}
 				}
 				r = &dkg.ResponseBundle{ShareIndex: uint32(i), Responses: rs, SessionID: p.nonce}
 				r.Signature = p.sign(i, r)
